@@ -189,18 +189,44 @@ def run_W5(chk):
             emitted.setdefault(k, (f, c))
     ex = prog.func(EIN, "_execute_commands")
     handled = set()
+    inl_ex = A.Inliner(ex.node)
+    kind_tests = {}      # kind -> the if (or assert) that tests for it
+
+    def kind_of(test):
+        """`<command>[0] == '<kind>'` (the command's first element possibly held in a temporary) -> kind"""
+        if isinstance(test, ast.Compare) and len(test.ops) == 1 and isinstance(test.ops[0], ast.Eq) and isinstance(test.comparators[0], ast.Constant) \
+                and isinstance(test.comparators[0].value, str):
+            left = test.left
+            if isinstance(left, ast.Name):
+                # name, args = command[0], command[1:]   (tuple assignment) or name = command[0]
+                for st_, v_, k_ in A.local_bindings(ex.node).get(left.id, []):
+                    if k_ == "assign" and v_ is not None:
+                        left = v_
+            if isinstance(left, ast.Subscript) and A.neg_const(left.slice) == 0:
+                return test.comparators[0].value
+        return None
     for n in ast.walk(ex.node):
-        if isinstance(n, ast.Compare) and A.text(n.left) == "command[0]" and isinstance(n.comparators[0], ast.Constant):
-            handled.add(n.comparators[0].value)
+        if isinstance(n, (ast.If, ast.Assert)):
+            k = kind_of(n.test)
+            if k is not None:
+                handled.add(k)
+                kind_tests[k] = n
     chk.require("parity_sign" in emitted and "swap_gate" in emitted, "_einsum: emitted command kinds not recognised")
     for k, (f, c) in sorted(emitted.items()):
         chk.verdict("W5", (f, c), f"command kind {k!r} has a handler in _execute_commands", True if k in handled else False,
                     f"the command {k!r} emitted by {f.short} is not executed by _execute_commands")
     # the parity_sign handler: charge of the *jumped* tensor acts as a string on the partner leg of d_ten
-    br = [n for n in ast.walk(ex.node) if isinstance(n, ast.If) and A.text(n.test) == "command[0] == 'parity_sign'"]
+    br = [kind_tests["parity_sign"]] if isinstance(kind_tests.get("parity_sign"), ast.If) else []
     chk.require(br, "_execute_commands: parity_sign branch not found")
     body = br[0].body
-    un = [n for n in body if isinstance(n, ast.Assign) and isinstance(n.targets[0], ast.Tuple) and A.text(n.value) == "command[1:]"]
+
+    def is_rest_of_command(v):
+        if isinstance(v, ast.Name):
+            for st_, v_, k_ in A.local_bindings(ex.node).get(v.id, []):
+                if k_ == "assign" and v_ is not None:
+                    v = v_
+        return isinstance(v, ast.Subscript) and isinstance(v.slice, ast.Slice) and A.neg_const(v.slice.lower) == 1 and v.slice.upper is None
+    un = [n for n in body if isinstance(n, ast.Assign) and isinstance(n.targets[0], ast.Tuple) and is_rest_of_command(n.value)]
     ok = False
     detail = "branch not recognised"
     if un and len(un[0].targets[0].elts) == 3:
